@@ -25,11 +25,12 @@ static int
 readname_loop(char *packet, int packetlen, char **src, char *dst, size_t length, size_t loop)
 {
 	char *dummy;
+	char *end;
 	char *s;
 	char *d;
 	int len;
 	int offset;
-	char c;
+	unsigned char c;
 
 	if (loop <= 0)
 		return 0;
@@ -37,13 +38,22 @@ readname_loop(char *packet, int packetlen, char **src, char *dst, size_t length,
 	len = 0;
 	s = *src;
 	d = dst;
-	while(*s && len < length - 2) {
+	end = packet + packetlen;
+	/* Never look at anything after the end of the packet: the receive
+	   buffer is bigger and still holds parts of earlier packets */
+	while (s < end && *s && len < length - 2) {
 		c = *s++;
 
 		/* is this a compressed label? */
 		if ((c & 0xc0) == 0xc0) {
+			if (s >= end) {
+				/* Second byte of the pointer is missing */
+				if (len == 0)
+					return 0;
+				break;
+			}
 			offset = (((s[-1] & 0x3f) << 8) | (s[0] & 0xff));
-			if (offset > packetlen) {
+			if (offset >= packetlen) {
 				if (len == 0) {
 					/* Bad jump first in packet */
 					return 0;
@@ -57,6 +67,12 @@ readname_loop(char *packet, int packetlen, char **src, char *dst, size_t length,
 			goto end;
 		}
 
+		if (c > end - s) {
+			/* Label continues after the end of the packet */
+			s = end;
+			break;
+		}
+
 		while(c && len < length - 1) {
 			*d++ = *s++;
 			len++;
@@ -68,7 +84,7 @@ readname_loop(char *packet, int packetlen, char **src, char *dst, size_t length,
 			break; /* We used up all space */
 		}
 
-		if (*s != 0) {
+		if (s < end && *s != 0) {
 			*d++ = '.';
 			len++;
 		}
